@@ -25,4 +25,5 @@ ITEMS = [
     Item('FileDumper.rows_processor', DM.sym_rows_processor, [], DM.D + 'file_dumper.py::FileDumper.rows_processor'),
     Item('FileDumper.handle_datapackage', DM.sym_handle_datapackage, [], DM.D + 'file_dumper.py::FileDumper.handle_datapackage'),
     Item('PathDumper.write_file_to_output', DM.sym_write_file_to_output, [], DM.D + 'to_path.py::PathDumper.write_file_to_output'),
+    Item('PathDumper.write_file_to_output.faulty', DM.sym_write_file_to_output_faulty, [], DM.D + 'to_path.py::PathDumper.write_file_to_output'),
 ]
